@@ -91,6 +91,9 @@ type Sched struct {
 	// goroutine acquires from it before reading what tasks wrote. Done() only releases, so it orders no
 	// task after another task.
 	join sync.WaitGroup
+	// over: the run has ended cleanly; daemon tasks still parked are released so that their goroutines (and
+	// the OS threads they occupy in the raw read) go away. From then on every scheduler call is a no-op.
+	over bool
 }
 
 var active *Sched
@@ -168,9 +171,27 @@ func (s *Sched) Go(name string, daemon bool, fn func()) *Task {
 
 func (s *Sched) taskMain(t *Task) {
 	rawRead(t.rfd) // wait for the token
+	if s.isOver() {
+		s.closeTask(t)
+		return
+	}
 	s.begin(t)
 	defer s.finish(t)
 	t.fn()
+}
+
+//go:norace
+func (s *Sched) isOver() bool { return s.over }
+
+// Over reports whether the run has ended (daemon tasks released after the end see true).
+//
+//go:norace
+func (s *Sched) Over() bool { return s.over }
+
+//go:norace
+func (s *Sched) closeTask(t *Task) {
+	syscall.Close(t.rfd)
+	syscall.Close(t.wfd)
 }
 
 //go:norace
@@ -184,6 +205,10 @@ func (s *Sched) finish(t *Task) {
 		// a panic in a task is part of the run's verdict: re-raise after recording would kill the process;
 		// tasks recover their own panics, so this is a harness bug
 		panic(r)
+	}
+	if s.over {
+		s.closeTask(t)
+		return
 	}
 	t.state = done
 	s.record(t, "done", "")
@@ -305,6 +330,9 @@ func (s *Sched) choose(cands []*Task, cur *Task) *Task {
 //
 //go:norace
 func (s *Sched) dispatch(from *Task) {
+	if s.over {
+		return
+	}
 	for {
 		s.Steps++
 		if s.Steps > s.MaxSteps {
@@ -353,6 +381,9 @@ func (s *Sched) dispatch(from *Task) {
 			return
 		}
 		rawRead(from.rfd)
+		if s.over {
+			return
+		}
 		s.cur = from
 		return
 	}
@@ -378,6 +409,9 @@ func describe(o any) string {
 //
 //go:norace
 func (s *Sched) Yield(kind, obj string) {
+	if s.over {
+		return
+	}
 	t := s.cur
 	s.record(t, kind, obj)
 	s.dispatch(t)
@@ -386,12 +420,20 @@ func (s *Sched) Yield(kind, obj string) {
 // Note records an event without yielding.
 //
 //go:norace
-func (s *Sched) Note(kind, obj string) { s.record(s.cur, kind, obj) }
+func (s *Sched) Note(kind, obj string) {
+	if s.over {
+		return
+	}
+	s.record(s.cur, kind, obj)
+}
 
 // Wait blocks the current task on obj until some task calls Wake(obj).
 //
 //go:norace
 func (s *Sched) Wait(obj any, kind string) {
+	if s.over {
+		return
+	}
 	t := s.cur
 	t.state = blocked
 	t.on = obj
@@ -487,10 +529,13 @@ func (s *Sched) stop() {
 	clean := !s.Deadlock && !s.StepCap
 	if clean {
 		// every task is done or a daemon parked for ever; pipes of finished tasks can go
+		s.over = true
 		for _, t := range s.tasks {
 			if t.state == done {
 				syscall.Close(t.rfd)
 				syscall.Close(t.wfd)
+			} else {
+				rawWrite(t.wfd) // a daemon parked for ever: let its goroutine run to its end
 			}
 		}
 	}
